@@ -463,6 +463,24 @@ fn leg_real(ctx: &Ctx, out: &mut Out) {
                     if got != want {
                         return Err(("real:commit-maxsharing".into(), first_diff(&got, &want)));
                     }
+                    // the same walk through an owned handle (its own SharingTracker impl), and right to left
+                    let got_arc: Vec<Item> = Arc::clone(&commit).post_order_iter::<MaxSharing<Commit>>().map(|d| {
+                        let idx = ptr_items.iter().position(|p| std::ptr::eq(p.node, Arc::as_ptr(&d.node))).unwrap();
+                        Item { node: idx, index: d.index, li: d.left_index, ri: d.right_index }
+                    }).collect();
+                    if got_arc != want {
+                        return Err(("real:commit-maxsharing-arc".into(), first_diff(&got_arc, &want)));
+                    }
+                    let want_rtl = ref_post_order(&g, g.len() - 1, Some(&classes), true);
+                    let got_rtl: Vec<Item> = commit.as_ref().rtl_post_order_iter::<MaxSharing<Commit>>().map(|d| {
+                        let idx = ptr_items.iter().position(|p| std::ptr::eq(p.node, d.node)).unwrap();
+                        Item { node: idx, index: d.index, li: d.left_index, ri: d.right_index }
+                    }).collect();
+                    // (which of two equal-class nodes is met first differs between the two directions: compare classes)
+                    let cls = |v: &[Item]| v.iter().map(|i| (classes[i.node], i.index, i.li, i.ri)).collect::<Vec<_>>();
+                    if cls(&got_rtl) != cls(&want_rtl) {
+                        return Err(("real:commit-maxsharing-rtl".into(), first_diff(&got_rtl, &want_rtl)));
+                    }
                     let ptr_order: Vec<usize> = ref_post_order(&g, g.len() - 1, Some(&ident), false).iter().map(|i| i.node).collect();
                     let expect_shared = ptr_order == want.iter().map(|i| i.node).collect::<Vec<_>>();
                     if commit.as_ref().is_shared_as::<MaxSharing<Commit>>() != expect_shared {
@@ -481,6 +499,13 @@ fn leg_real(ctx: &Ctx, out: &mut Out) {
                         }).collect();
                         if got != want {
                             return Err(("real:redeem-maxsharing".into(), first_diff(&got, &want)));
+                        }
+                        let got_arc: Vec<Item> = Arc::clone(&redeem).post_order_iter::<MaxSharing<Redeem>>().map(|d| {
+                            let idx = ptr_items.iter().position(|p| std::ptr::eq(p.node, Arc::as_ptr(&d.node))).unwrap();
+                            Item { node: idx, index: d.index, li: d.left_index, ri: d.right_index }
+                        }).collect();
+                        if got_arc != want {
+                            return Err(("real:redeem-maxsharing-arc".into(), first_diff(&got_arc, &want)));
                         }
                         let distinct: std::collections::HashSet<Option<usize>> = classes.iter().copied().collect();
                         if redeem.as_ref().is_shared_as::<MaxSharing<Redeem>>() != (distinct.len() == classes.len()) {
